@@ -30,6 +30,7 @@ type OpOptions struct {
 	NodeRoot             bool // node(id:) as a client root field
 	RootTypename         bool
 	FragReuse            bool // one named fragment spread at two places
+	TwinRoots            bool // one root field selected twice under two aliases with different selections below
 	UnevenIDs            bool // every member of an abstract type is selected, but `id` only in some of the fragments
 	UnionPartial         bool // union selections that leave a member type without a selected id (findings C01-b/c)
 	HelperDirectives     bool // @skip/@include on a client-selected id/__typename (finding C01-l)
@@ -484,6 +485,40 @@ func Operation(rng *rand.Rand, schema *ast.Schema, opt OpOptions) GenOp {
 			g.feat["node_root"] = true
 		}
 	}
+	if body == "" && kind == "query" && opt.TwinRoots {
+		// the same entities at two places of the result, each place with its own selection (one of them
+		// asks for `id`s the other one only gets as helpers)
+		var cands []*ast.FieldDefinition
+		for _, f := range root.Fields {
+			td := schema.Types[f.Type.Name()]
+			if strings.HasPrefix(f.Name, "__") || f.Name == "node" || !isComposite(td) || depth < 2 {
+				continue
+			}
+			req := false
+			for _, a := range f.Arguments {
+				req = req || (a.Type.NonNull && a.DefaultValue == nil)
+			}
+			if !req {
+				cands = append(cands, f)
+			}
+		}
+		if len(cands) > 0 {
+			f := cands[rng.Intn(len(cands))]
+			td := schema.Types[f.Type.Name()]
+			a := g.selFor(td, depth-1)
+			var b string
+			if rng.Intn(2) == 0 {
+				b = g.selFor(td, depth-1)
+			} else {
+				// the same selection without the explicit `id`s: where a further step needs one it comes back
+				// as a helper, and the sub-requests of the two places are the same text
+				b = dropPlainIDs(a)
+				g.feat["twin_roots_same_but_ids"] = true
+			}
+			body = fmt.Sprintf("ta: %s { %s } tb: %s { %s }", f.Name, a, f.Name, b)
+			g.feat["twin_roots"] = true
+		}
+	}
 	if body == "" {
 		nroot := 1 + rng.Intn(3)
 		if kind == "subscription" {
@@ -521,6 +556,29 @@ func Operation(rng *rand.Rand, schema *ast.Schema, opt OpOptions) GenOp {
 		op.Variables = g.vals
 	}
 	return op
+}
+
+// dropPlainIDs removes the un-aliased, undirected `id` selections that are not the only selection of their set.
+func dropPlainIDs(sel string) string {
+	toks := strings.Fields(sel)
+	var out []string
+	for i, t := range toks {
+		if t == "id" {
+			prev, next := "", ""
+			if i > 0 {
+				prev = toks[i-1]
+			}
+			if i+1 < len(toks) {
+				next = toks[i+1]
+			}
+			alone := (prev == "{" || prev == "") && (next == "}" || next == "")
+			if !strings.HasSuffix(prev, ":") && !strings.HasPrefix(next, "@") && !alone {
+				continue
+			}
+		}
+		out = append(out, t)
+	}
+	return strings.Join(out, " ")
 }
 
 // hasPlainID reports whether the top level of a rendered selection selects `id` un-aliased and without directives.
